@@ -4,7 +4,14 @@ import json, sys
 pid = sys.argv[1]
 rnd = sys.argv[2] if len(sys.argv) > 2 else ""
 wt = f"/tmp/wt/{rnd}{pid}"
-extra = "" if not rnd else (" In this round prefer the LESS obvious sites: helper and utility code, validation, base classes, "
+extra3 = (" In this round aim at what ordinary input generators do not reach: rarely used public entry points and call orders "
+          "(fit_predict, fit_transform, update_predict, transform_scores, predict on other data than was fitted, clone / set_params / "
+          "get_params round trips, objects shared between estimators), unusual but legal argument forms (lists, Series, integer or "
+          "float32 data, non-default index or column labels, NumPy scalar hyper-parameters, boundary values 0 / 1 / exactly-at-the-limit), "
+          "numerical edge cases inside the documented domain (constant columns, huge or tiny magnitudes, exact ties), and state that "
+          "outlives a call (caches, module-level or class-level variables, mutable default arguments, in-place modification of inputs "
+          "or of fitted attributes). At least TWO of the three mutants must be of these kinds, and each must still satisfy (a) and (b).")
+extra = extra3 if rnd.startswith("r3") else "" if not rnd else (" In this round prefer the LESS obvious sites: helper and utility code, validation, base classes, "
                             "penalty / threshold construction, conversions, caching and state handling, parameter plumbing between "
                             "classes - rather than the most central line of the main algorithm loop - and make at least TWO of the "
                             "three mutants need a rare input or boundary configuration to manifest.")
